@@ -22,7 +22,7 @@ CONSTANTS MaxN
 VARIABLES kind, a, b, nf       \* "indefinite": (p, q, neg_first) = (a, b, nf);  "symplectic": n = a
 
 Init == \/ /\ kind = "indefinite" /\ a \in 0..MaxN /\ b \in 0..MaxN /\ a + b <= MaxN /\ nf \in BOOLEAN
-        \/ /\ kind = "symplectic" /\ a \in 0..MaxN /\ b = 0 /\ nf = TRUE
+        \/ /\ kind = "symplectic" /\ a \in 1..MaxN /\ b = 0 /\ nf = TRUE
 Next == UNCHANGED <<kind, a, b, nf>>
 
 Indef(pp, qq, negfirst) ==
